@@ -235,6 +235,59 @@ def _run(shard, *v):
         sc.close()
 
 
+# ------------------------------------------------------------------ refresh_partitions
+def pre_refresh(shard, *v):
+    return True
+
+
+def body_refresh(shard, *v):
+    with untraced():
+        return _refresh(shard, *v)
+
+
+def _refresh(shard, when, h_new, low_new, m0, m1, mbs):
+    """refresh_partitions=True: a partition appears at a symbolic poll; it has no committed
+    offset, so it is read from its low watermark (streamz switches the reset policy to
+    'earliest' after its first poll round), gap-free like every other partition."""
+    vd = Verdict()
+    when = decide(when, (0, 1, 2))
+    h_new = decide(h_new, (0, 1, 3))
+    m0 = decide(m0, (0, 2))
+    m1 = decide(m1, (0, 1))
+    mbs = decide(mbs, (1, 2))
+    if None in (when, h_new, m0, m1, mbs):
+        return ""
+    low_new = decide(low_new, tuple(range(0, h_new + 1)))
+    if low_new is None:
+        return ""
+    broker = install_fake()
+    broker.create(TOPIC, 1)
+    broker.topics[TOPIC][0].high = 2
+    sc = Scenario(broker, shard["reset"], mbs, refresh=True)
+    try:
+        sc.start()
+        for k in range(3):
+            if k == when:
+                broker.add_partition(TOPIC)
+                broker.topics[TOPIC][1].high = h_new
+                broker.topics[TOPIC][1].low = low_new
+            broker.produce(TOPIC, 0, m0)
+            if len(broker.topics[TOPIC]) > 1:
+                broker.produce(TOPIC, 1, m1)
+            sc.poll()
+        for _ in range(10):
+            sc.poll()
+        start0 = 0 if shard["reset"] == 1 else 2
+        highs = {p: broker.topics[TOPIC][p].high for p in range(2)}
+        nxt = check_batches(vd, sc.processed, {0: start0, 1: low_new}, highs, mbs)
+        for p in range(2):
+            if nxt[p] != highs[p]:
+                vd.add("messages-never-delivered@partition-%s" % ("added" if p else "initial"))
+        return vd.result()
+    finally:
+        sc.close()
+
+
 # ------------------------------------------------------------------ one polling step, arbitrary state
 class _RecLoop:
     """Records what poll_kafka schedules (checkpoint_emit calls) instead of running it."""
@@ -447,6 +500,9 @@ def obligations(tier):
                          "body": "body_step", "pre": "pre_step",
                          "shard": {"reset": reset, "committed": committed},
                          "types": ["int"] * 4, "budget": 300})
+    for reset in (0, 1):
+        obls.append({"name": "refresh_partitions/reset=%d" % reset, "body": "body_refresh", "pre": "pre_refresh",
+                     "shard": {"reset": reset}, "types": ["int"] * 6, "budget": 600 if q else 2000})
     for consumer in ("sync", "buffer"):
         for mbs in (1, 2):
             for reset in (0, 1):
